@@ -368,11 +368,12 @@ def run_property(modname, tier, seed, nproc=None, only=None, verbose=False):
             known_hit[f['what']] = known_hit.get(f['what'], 0) + 1
             continue
         nviol += 1
-        new_labels = [l for l in dict.fromkeys(common) if (it['harness'], l) not in printed]
+        vk = getattr(mod, 'VIOL_KEY', lambda c: '')(it['cfg'])
+        new_labels = [l for l in dict.fromkeys(common) if (it['harness'], l, vk) not in printed]
         if not new_labels:
             continue
         for l in new_labels:
-            printed.add((it['harness'], l))
+            printed.add((it['harness'], l, vk))
         infos = [x for x in cr.get('failed', []) if x[0] in new_labels][:3]
         body = {'property': prop, 'module': modname, 'harness': it['harness'], 'cfg': it['cfg'],
                 'inputs': it['inputs'], 'labels': new_labels, 'info': infos,
